@@ -135,6 +135,7 @@ type Action struct {
 	DD     int64                       `json:"grid,omitempty"`
 	Bal0   map[string]map[string]int64 `json:"bal0,omitempty"`
 	Params *ParamsJ                    `json:"params,omitempty"`
+	Listeners int                      `json:"listeners,omitempty"`
 	// messages
 	By        string   `json:"by,omitempty"`
 	Price     int64    `json:"price,omitempty"`
@@ -240,6 +241,9 @@ func (b *Base) NewEnv(init Action) (*Env, error) {
 		if err := b.App.BankKeeper.SendCoinsFromModuleToAccount(e.Ctx, minttypes.ModuleName, e.Addr[u], coins); err != nil {
 			return nil, err
 		}
+	}
+	if err := e.InstallListeners(init.Listeners); err != nil {
+		return nil, err
 	}
 	if len(init.Users) > 0 {
 		if acc := b.App.AccountKeeper.GetAccount(e.Ctx, e.Addr[init.Users[0]]); acc != nil {
